@@ -322,6 +322,16 @@ func runC08(c *Ctx) {
 		h = append(h, probes...)
 		hists = append(hists, h)
 	}
+	// key rollover: a list signed by a certificate the entry does not know fails the refresh; a handshake whose chain
+	// contains that certificate lets the entry adopt it; the next refresh succeeds — with other outcomes in between
+	for _, mid := range [][]Step{{}, {sv("/a", "garbage"), refreshStep, sv("/a", "rolled")}, {sv("/a", "rolled"), {Op: "refresh", What: "InsertFails 1"}}, {hs("o101")}} {
+		h := []Step{sv("/a", "old"), hs("c101"), sv("/a", "rolled"), refreshStep, hs("c101"), hs("c102")}
+		h = append(h, mid...)
+		h = append(h, hs("r900"), hs("c103"), refreshStep)
+		h = append(h, probes...)
+		h = append(h, restartStep, hs("c102"), hs("c101"))
+		hists = append(hists, h)
+	}
 	// exhaustive sequences of refresh outcomes of length <= 3
 	outcomes := []string{"old", "new", "down", "garbage", "badsig", "fault:StagingCreateFails", "fault:InsertFails 1"}
 	depth := 2
